@@ -381,6 +381,8 @@ class Rel:
     ``when`` is an optional guard (the relation is only required when it holds)."""
 
     def __init__(self, kind, a, b=None, label="", when=None, scale=1.0):
+        if kind == "true" and isinstance(b, str) and not label:
+            b, label = None, b          # Rel("true", condition, "label")
         self.kind, self.a, self.b, self.label, self.when = kind, a, b, label, when
         self.scale = scale      # numerical reading: tolerance is relative to max(scale,|a|,|b|)
 
